@@ -40,6 +40,8 @@ def execute(case, ctx):
         ctx.check(bool(d.all()) == (t + 1 >= k), f"{name}||done_at_quota",
                   f"done={d.tolist()} after {t + 1} selections with quota {k}", {"actions": A.tolist()})
     rew = ctx.guard(env.get_reward, ep.td.clone(), A.clone(), what=f"get_reward|{name}").reshape(-1).double()
+    asym = name == "flp" and case.get("lat") is not None and case["lat"].get("asym") is not None
+    conv, last_have = {}, {}
     for b in range(B):
         acts = A[b].tolist()
         det = {"row": b, "actions": acts, "instance": insts[b], "quota": k}
@@ -60,7 +62,26 @@ def execute(case, ctx):
             if got != chosen:
                 ctx.violation(f"{name}||chosen_bookkeeping", f"chosen={sorted(got)} but selected {sorted(chosen)}", {**det, "step": t})
                 break
-            if name == "flp":
+            if name == "flp" and asym:
+                # direction-dependent cost matrix: "nearest facility" may be read facility->location or
+                # location->facility; either is accepted, but it must be ONE reading for the whole episode and the one the
+                # reward uses (checked below: reward == -sum of the final bookkeeping)
+                Dm = insts[b]["orig_distances"]
+                nloc = len(Dm)
+                cand = {"facility_to_location": [min(Dm[j][i] for j in chosen) for i in range(nloc)],
+                        "location_to_facility": [min(Dm[i][j] for j in chosen) for i in range(nloc)]}
+                have = s["distances"][b].double().tolist()
+                fits = [c for c, w_ in cand.items() if all(abs(w - h) <= 1e-5 for w, h in zip(w_, have))]
+                if conv.get(b) is None and len(fits) == 1:
+                    conv[b] = fits[0]
+                if not fits or (conv.get(b) is not None and conv[b] not in fits):
+                    ctx.violation("flp||nearest_distance_bookkeeping|asymmetric", f"distances after step {t} are not the nearest-facility "
+                                  f"distances under {'either reading' if not fits else 'the reading used so far (' + conv[b] + ')'}",
+                                  {**det, "step": t, "have": have, "candidates": cand})
+                    break
+                book = have
+                last_have[b] = have
+            elif name == "flp":
                 locs = insts[b]["locs"]
                 want = [min(math.hypot(p[0] - locs[j][0], p[1] - locs[j][1]) for j in chosen) for p in locs]
                 have = s["distances"][b].double().tolist()
@@ -91,8 +112,16 @@ def execute(case, ctx):
         v = (judge_flp if name == "flp" else judge_mcp)(insts[b], acts, cfg)
         if v.viol:
             ctx.violation(f"{name}||{v.viol[0][0]}", f"selection invalid: {v.viol}", det)
-        ctx.check(abs(float(rew[b]) - v.obj) <= 1e-5 * (1 + abs(v.terms)), f"{name}||reward",
-                  f"reward {float(rew[b])} != objective {v.obj}", det)
+        if asym:
+            if b in last_have:
+                tot = sum(last_have[b])
+                ctx.check(abs(float(rew[b]) + tot) <= 1e-5 * (1 + abs(tot)), "flp||reward_vs_bookkeeping|asymmetric",
+                          f"reward {float(rew[b])} is not minus the sum of the nearest-facility distances shown to the policy ({tot})",
+                          {**det, "reading": conv.get(b)})
+                ctx.event(f"flp:asymmetric|{conv.get(b) or 'both_readings_fit'}")
+        else:
+            ctx.check(abs(float(rew[b]) - v.obj) <= 1e-5 * (1 + abs(v.terms)), f"{name}||reward",
+                      f"reward {float(rew[b])} != objective {v.obj}", det)
         if k >= 2 and big_change:
             ctx.nontriv({"c": case, "row": b})
     ctx.sample({"env": name, "cfg": cfg, "B": B, "actions_row0": A[0].tolist(), "reward_row0": float(rew[0])})
@@ -155,6 +184,23 @@ def execute_decap(case, ctx):
     ctx.sample({"env": name, "cfg": cfg, "B": B, "actions_row0": A[0].tolist()})
 
 
+def flp_mcp_cases(tier):
+    import hypothesis.strategies as st
+
+    @st.composite
+    def c(draw):
+        case = draw(episode_cases(tier, ENVS))
+        if case["env"] == "flp" and case.get("lat") is not None and case["src"] == "lat" and draw(st.integers(0, 2)) == 0:
+            # hand-built FLP instance with a direction-dependent cost matrix (see vf.envs.FLP.from_lattice)
+            n = case["cfg"]["n"]
+            B = len(case["lat"]["locs"])
+            case["lat"]["asym"] = draw(st.lists(st.lists(st.lists(st.integers(0, 6), min_size=n, max_size=n), min_size=n, max_size=n),
+                                                min_size=B, max_size=B))
+            case.pop("env_shape", None)
+        return case
+    return c()
+
+
 def preimport():
     from ..eda import data_dir
     data_dir()
@@ -162,7 +208,7 @@ def preimport():
 
 SUBS = [
     Sub("decap", execute_decap, strategy=lambda tier: episode_cases(tier, ["dpp", "mdpp"]),
-        budget={"quick": 1200, "thorough": 16000}, shards=16),
-    Sub("episodes", execute, strategy=lambda tier: episode_cases(tier, ENVS), budget={"quick": 3000, "thorough": 40000}, shards=16),
+        budget={"quick": 3600, "thorough": 16000}, shards=16),
+    Sub("episodes", execute, strategy=lambda tier: flp_mcp_cases(tier), budget={"quick": 8992, "thorough": 40000}, shards=16),
 ]
 TIME_CAP = {"quick": 300, "thorough": 2400}
